@@ -36,9 +36,8 @@ import (
 )
 
 var (
-	childEnv  []string // extra environment of every child process of the workload being evaluated
-	onlyPoint string   // replay of a free-running workload: crash point by name …
-	onlyPIdx  int      // … and per-name hit index
+	onlyPoint string // replay of a free-running workload: crash point by name …
+	onlyPIdx  int    // … and per-name hit index
 )
 
 func blockDBOpts(maxDat uint64) *chain.BlockDBOpts {
@@ -49,14 +48,17 @@ func blockDBOpts(maxDat uint64) *chain.BlockDBOpts {
 	return &chain.BlockDBOpts{MaxDataFileSize: maxDat, CompressOnDisk: true}
 }
 
-func setChildEnv(w Workload) {
-	childEnv = nil
+// childEnvOf: extra environment of every child process of a workload
+func childEnvOf(w Workload) (env []string) {
 	if w.MaxDat != 0 {
-		childEnv = []string{fmt.Sprint("C07_MAXDAT=", w.MaxDat)}
+		env = []string{fmt.Sprint("C07_MAXDAT=", w.MaxDat)}
 	}
 	if w.Wide == "bulk" {
-		childEnv = append(childEnv, "C07_LIBCYCLES=0") // thousands of blocks per directory: no extra clean-restart cycles in library mode
+		env = append(env, "C07_LIBCYCLES=0") // thousands of blocks per directory: no extra clean-restart cycles in library mode
+	} else {
+		env = append(env, "C07_IDXREPORT=1") // miss4.go loadTie: the positions LoadBlockIndex computed
 	}
+	return
 }
 
 // feedBlocks: the blocks a restarted node is fed = every block of the workload except the ones of a branch that is
@@ -265,6 +267,8 @@ func (x *wideCtx) wideOp(op Op, k **chainkit.Kit) bool {
 			}
 			lockDir(x.wr.Dir)
 			*k = newKitOpt(x.wr.Dir, x.w.MaxDat)
+			// "a clean shutdown followed by a restart reproduces the pre-shutdown state exactly" (miss4.go)
+			x.restartCheck("library-mode restart (NewChainExt)", pre, stateOf((*k).Ch))
 		}()
 	default:
 		return false
@@ -485,16 +489,33 @@ func newestFileBlocks(dir string) (n int, maxIdx uint32) {
 	return
 }
 
-// cleanRestart: "a clean shutdown followed by a restart reproduces the pre-shutdown state exactly" — the directory the
-// uninterrupted run left behind after Chain.Close is re-opened by a fresh process.
-func (h *Harness) cleanRestart(w Workload, wr *WlRun, blocksFile string) {
-	r := h.r
-	dir := h.root + "/" + w.Name + "/closed/"
-	if copyTree(wr.Dir, dir) != nil {
+type cleanJob struct {
+	had bool
+	res *ChildRes
+}
+
+// cleanStart (phase A) / cleanRestart (phase B): "a clean shutdown followed by a restart reproduces the pre-shutdown state exactly" —
+// the directory the uninterrupted run left behind after Chain.Close is re-opened by a fresh process.
+func (h *Harness) cleanStart(p *pending) {
+	dir := h.root + "/" + p.w.Name + "/closed/"
+	if copyTree(p.wr.Dir, dir) != nil {
 		return
 	}
-	had := h.viewOf(dir).lockHas // a clean shutdown removes the lock file: the restart has to create it
-	c := runChild("client", dir, blocksFile)
+	j := &cleanJob{had: h.viewOf(dir).lockHas} // a clean shutdown removes the lock file: the restart has to create it
+	p.clean = j
+	p.wg.Add(1)
+	go func() {
+		defer p.wg.Done()
+		j.res = runChild(p.env, "client", dir, p.blocksFile)
+	}()
+}
+
+func (h *Harness) cleanRestart(p *pending) {
+	r := h.r
+	if p.clean == nil {
+		return
+	}
+	w, wr, c, had := p.w, p.wr, p.clean.res, p.clean.had
 	h.nChild++
 	r.Eval("clean-restart/"+w.Shape, w.Name+"|clean-close")
 	ht := Hit{N: 0, Name: "clean-close", Idx: 1, NSub: len(wr.Names)}
